@@ -83,6 +83,9 @@ fn classes(st: &mut Stats, case: &ExecCase, t: &Trace) {
     if t.xadds > 0 {
         st.class("xadd");
     }
+    if t.neg_ld_imm > 0 {
+        st.class("ldabs/ldind-negative-imm");
+    }
     if t.mem_accesses > 0 {
         st.class("memory-access");
     }
@@ -124,7 +127,16 @@ pub fn check01(runner: &mut Runner, case: &mut ExecCase, st: Option<&mut Stats>)
     }
     case.budget = 100 * m.trace.steps + 10_000;
     let r = runner.run(case, &[Engine::Interp]);
-    let quirk = if m.trace.i2_trigger { Some(model_run(case, addr, Quirks { zx_jmp_imm: true }, MODEL_STEPS)) } else { None };
+    // the model run that mimics the interpreter's known deviation (I2) - and, on the path taken
+    // only because of it, the interpreter's reading of negative ldabs/ldind immediates
+    let quirk = if m.trace.i2_trigger { Some(model_run(case, addr, Quirks { zx_jmp_imm: true, ld_neg_imm_zx: true }, MODEL_STEPS)) } else { None };
+    if let Some(q) = &quirk {
+        if matches!(q.out, MOut::Undefined(_) | MOut::StepLimit) {
+            // because of I2 the interpreter follows a path whose result the model cannot
+            // predict: nothing to compare (counted, not hidden)
+            return Verdict::Discard("i2-divergence-into-undefined-path");
+        }
+    }
     compare_interp_with_model(case, &m, quirk.as_ref(), &r[0])
 }
 
@@ -162,7 +174,8 @@ fn replay01(_ctx: &Ctx, _kind: &str, case: &Value) -> Verdict {
 
 pub fn check_diff(runner: &mut Runner, case: &mut ExecCase, engine: Engine, st: Option<&mut Stats>) -> Verdict {
     let addr = runner.pkt_addr(case);
-    let m = model_run(case, addr, Quirks::default(), MODEL_STEPS);
+    // premise = what the interpreter does: it reads a negative ldabs/ldind immediate zero-extended
+    let m = model_run(case, addr, Quirks { ld_neg_imm_zx: true, ..Quirks::default() }, MODEL_STEPS);
     let premise = matches!(m.out, MOut::Ret(_));
     if let Some(st) = st {
         st.eval();
